@@ -913,8 +913,9 @@ func (s *scanner) scanName() string {
 }
 
 func isName(r rune) bool {
+	// '*' is not a name character: "a*b" is a multiplication, not the name "a*b".
 	return string(r) != ":" && string(r) != "/" &&
-		(unicode.Is(first, r) || unicode.Is(second, r) || string(r) == "*")
+		(unicode.Is(first, r) || unicode.Is(second, r))
 }
 
 func isDigit(r rune) bool {
